@@ -169,46 +169,74 @@ def eval_src(src, leaves, ctx):
     raise ValueError(src)
 
 
-def expected_nodes(product, which=("root", "leader", "images")):
+def expected_nodes(product, which=("root", "leader", "images"), deps=None):
     """-> {node path: {"attrs": {name: value}, "vars": {name: {"dims": [...], "data": nested list / scalar, "attrs": {...}}}}}"""
     prov = load_provenance()
     leaves = input_leaves(product)
     cfg = product.cfg
     out = {}
     if "root" in which:
-        out.update(_eval_nodes(prov["root"], leaves, {"sizes": {}}))
+        out.update(_eval_nodes(prov["root"], leaves, {"sizes": {}}, deps))
     if "leader" in which:
         mapproj = cfg.get("mapproj", "UTM" if cfg.get("level", "1.5") != "1.1" else None)
         n_att = len(product.leader["attitude"]["data_points"])
         n_chan = len(product.leader["data_quality_summary"]["relative_radiometric_quality"]["nominal_relative_radiometric_calibration_uncertainty"])
         sizes = {"points": n_att, "channel": n_chan}
-        out.update(_eval_nodes(prov["leader"], leaves, {"sizes": sizes}))
+        out.update(_eval_nodes(prov["leader"], leaves, {"sizes": sizes}, deps))
         if mapproj:
-            out.update(_eval_nodes(prov["map_projection"][mapproj], leaves, {"sizes": sizes}))
+            out.update(_eval_nodes(prov["map_projection"][mapproj], leaves, {"sizes": sizes}, deps))
     if "images" in which:
         for k, im in enumerate(product.images):
             key = "image_1.1" if im.level == "1.1" else "image_1.5"
             gname = im.pol + (f"_scan{im.scan[1]}" if im.scan else "")
-            nodes = _eval_nodes(prov[key], leaves, {"img": k, "sizes": {"rows": im.n_lines}})
+            d = {} if deps is not None else None
+            nodes = _eval_nodes(prov[key], leaves, {"img": k, "sizes": {"rows": im.n_lines}}, d)
             for p, n in nodes.items():
                 out[p.replace("{group}", gname)] = n
+            if deps is not None:
+                for ok, ins in d.items():
+                    deps.setdefault(ok.replace("{group}", gname), set()).update(ins)
     return out
 
 
-def _eval_nodes(spec_nodes, leaves, ctx):
+class _Tracker(dict):
+    """the input leaves, recording which keys an evaluation reads"""
+
+    def __init__(self, base):
+        super().__init__(base)
+        self.seen = set()
+
+    def __getitem__(self, k):
+        self.seen.add(k)
+        return super().__getitem__(k)
+
+
+def _eval_nodes(spec_nodes, leaves, ctx, deps=None):
+    """`deps` (optional dict): filled with  output leaf ("<path>@<attr>" / "<path>/<var>") -> set of input leaf keys read"""
     out = {}
+    if deps is not None:
+        leaves = _Tracker(leaves)
+
+    def note(key):
+        if deps is not None:
+            deps.setdefault(key, set()).update(k.replace("@meta", "") for k in leaves.seen)
+            leaves.seen = set()
+
     for path, node in spec_nodes.items():
         attrs = {}
         for name, src in node.get("attrs", {}).items():
             if "optional_on" in src:
                 leaf = leaves[src["optional_on"].format(**ctx)]
                 if leaf.blank:
+                    note(f"{path}@{name}")
                     continue
             attrs[name] = eval_src(src, leaves, ctx)
+            note(f"{path}@{name}")
         variables = {}
         for name, v in node.get("vars", {}).items():
             variables[name] = {"dims": v["dims"], "data": eval_src(v["src"], leaves, ctx),
                                "attrs": {k: eval_src(s, leaves, ctx) for k, s in v.get("attrs", {}).items()}}
+            note(f"{path}/{name}")
         out[path] = {"attrs": attrs, "vars": variables, "coords": node.get("coords", [])}
     return out
 
